@@ -65,19 +65,228 @@ Proof.
     destruct ((hb - 1) * 1000 <? now - mlt) eqn:F.
     + cbn [set_mlt s_state s_hb s_mlt s_id s_conn]. rewrite thr_dead_eq, Z.sub_diag.
       replace (2 * hb * 1000 <? 0) with false by (symmetry; apply Z.ltb_ge; lia).
-      rewrite andb_false_r. cbn [s_id s_hb]. rewrite thr_treq_eq, Hn. cbn [negb andb].
+      rewrite andb_false_r. cbn [set_mlt s_id s_hb s_state s_mlt s_conn]. rewrite thr_treq_eq, Hn. cbn [negb andb].
       destruct (2 * hb * 1000 <? now - n * 1000) eqn:T; reflexivity.
     + cbn [s_mlt s_hb s_id]. rewrite thr_dead_eq.
       replace (2 * hb * 1000 <? now - mlt) with false by (symmetry; apply Z.ltb_ge; bool_lia; lia).
-      rewrite andb_false_r. cbn [s_id s_hb]. rewrite thr_treq_eq, Hn. cbn [negb andb].
+      rewrite andb_false_r. cbn [set_mlt s_id s_hb s_state s_mlt s_conn]. rewrite thr_treq_eq, Hn. cbn [negb andb].
       destruct (2 * hb * 1000 <? now - n * 1000) eqn:T; reflexivity.
   - cbn [truthy].
     destruct ((hb - 1) * 1000 <? now - mlt) eqn:F.
     + cbn [set_mlt set_id s_state s_hb s_mlt s_id s_conn]. rewrite thr_dead_eq, Z.sub_diag.
       replace (2 * hb * 1000 <? 0) with false by (symmetry; apply Z.ltb_ge; lia).
-      rewrite andb_false_r. cbn [s_id s_hb]. rewrite thr_treq_eq.
+      rewrite andb_false_r. cbn [set_mlt set_id s_id s_hb s_state s_mlt s_conn]. rewrite thr_treq_eq.
       destruct (negb (now / 1000 =? 0) && (2 * hb * 1000 <? now - now / 1000 * 1000)) eqn:T; reflexivity.
     + cbn [s_mlt s_hb s_id]. rewrite thr_dead_eq.
       replace (2 * hb * 1000 <? now - mlt) with false by (symmetry; apply Z.ltb_ge; bool_lia; lia).
       rewrite andb_false_r. reflexivity.
+Qed.
+
+(* ------------------------------------------------------------------ single iterations *)
+Definition idle_at (s : st) (hb t0 : Z) : Prop :=
+  live s /\ s_hb s = hb /\ s_id s = None /\ s_mlt s = t0.
+
+Lemma tick_idle : forall now s hb t0,
+  idle_at s hb t0 -> 0 <= hb -> now - t0 <= (hb - 1) * 1000 -> tick now s = (s, []).
+Proof.
+  intros now s hb t0 (L & Hh & Hi & Hm) Hhb Hle.
+  rewrite tick_live; [| assumption | lia | congruence].
+  unfold tick_spec. rewrite Hi, Hh, Hm.
+  replace ((hb - 1) * 1000 <? now - t0) with false by (symmetry; apply Z.ltb_ge; lia). reflexivity.
+Qed.
+
+Definition probing_st (hb now : Z) : st := mkSt ST_ACTIVE hb now (Some (now / 1000)) true.
+
+Lemma tick_probe : forall now s hb t0,
+  idle_at s hb t0 -> 1 <= hb -> 1000 <= now -> (hb - 1) * 1000 < now - t0 ->
+  tick now s = (probing_st hb now, [testreq_frame (now / 1000)]).
+Proof.
+  intros now s hb t0 (L & Hh & Hi & Hm) Hhb Hnow Hgt.
+  rewrite tick_live; [| assumption | lia | congruence].
+  unfold tick_spec. rewrite Hi, Hh, Hm.
+  replace ((hb - 1) * 1000 <? now - t0) with true by (symmetry; apply Z.ltb_lt; lia).
+  pose proof (div1000 now).
+  replace (2 * hb * 1000 <? now - now / 1000 * 1000) with false by (symmetry; apply Z.ltb_ge; lia).
+  rewrite andb_false_r. reflexivity.
+Qed.
+
+(* a probe is outstanding and its deadline (id + 2 hb seconds) has not passed: nothing is emitted *)
+Lemma tick_waiting : forall now s n,
+  live s -> s_id s = Some n -> n <> 0 -> 0 <= s_hb s -> now <= (n + 2 * s_hb s) * 1000 ->
+  exists m, tick now s = (set_mlt s m, []).
+Proof.
+  intros now s n L Hi Hn Hhb Hle.
+  rewrite tick_live; [| assumption | lia | congruence].
+  unfold tick_spec. rewrite Hi.
+  replace (2 * s_hb s * 1000 <? now - n * 1000) with false by (symmetry; apply Z.ltb_ge; lia).
+  destruct ((s_hb s - 1) * 1000 <? now - s_mlt s).
+  - exists now. reflexivity.
+  - exists (s_mlt s). destruct s; reflexivity.
+Qed.
+
+(* ... and the first iteration after the deadline disconnects *)
+Lemma tick_timeout : forall now s n,
+  live s -> s_id s = Some n -> n <> 0 -> 0 <= s_hb s -> (n + 2 * s_hb s) * 1000 < now ->
+  tick now s = (dead_st (s_hb s), [ODisconnect]).
+Proof.
+  intros now s n L Hi Hn Hhb Hlt.
+  rewrite tick_live; [| assumption | lia | congruence].
+  unfold tick_spec. rewrite Hi.
+  replace (2 * s_hb s * 1000 <? now - n * 1000) with true by (symmetry; apply Z.ltb_lt; lia).
+  reflexivity.
+Qed.
+
+(* ------------------------------------------------------------------ runs *)
+Definition outs (s : st) (evs : list ev) : list (list out) := map r_out (trace s evs).
+
+(* k iterations one sleep period apart, the first at time p *)
+Fixpoint ticks (p : Z) (k : nat) : list ev :=
+  match k with
+  | O => []
+  | S k' => Tick p :: ticks (p + tick_ms) k'
+  end.
+
+Lemma trace_app : forall a s b, trace s (a ++ b) = trace s a ++ trace (final s a) b.
+Proof.
+  induction a as [|e a IH]; intros s b; [reflexivity|].
+  cbn [app trace]. unfold final. cbn [fold_left]. destruct (step s e) as [s' o] eqn:E. cbn [fst].
+  rewrite IH. reflexivity.
+Qed.
+
+Lemma final_app : forall a s b, final s (a ++ b) = final (final s a) b.
+Proof. intros; unfold final; apply fold_left_app. Qed.
+
+Lemma outs_app : forall a s b, outs s (a ++ b) = outs s a ++ outs (final s a) b.
+Proof. intros; unfold outs; rewrite trace_app, map_app; reflexivity. Qed.
+
+Lemma trace_ev : forall evs s, map r_ev (trace s evs) = evs.
+Proof.
+  induction evs as [|e evs IH]; intro s; [reflexivity|].
+  cbn [trace]. destruct (step s e) as [s' o]. cbn [map r_ev]. rewrite IH. reflexivity.
+Qed.
+
+Lemma ticks_app : forall a p b, ticks p (a + b) = ticks p a ++ ticks (p + Z.of_nat a * 1000) b.
+Proof.
+  induction a as [|a IH]; intros p b.
+  - cbn. f_equal. lia.
+  - cbn [Nat.add ticks app]. rewrite IH, tick_ms_eq. do 3 f_equal. lia.
+Qed.
+
+Lemma outs_cons : forall s e r, outs s (e :: r) = snd (step s e) :: outs (fst (step s e)) r.
+Proof. intros; unfold outs; cbn [trace]; destruct (step s e); reflexivity. Qed.
+
+Lemma final_cons : forall s e r, final s (e :: r) = final (fst (step s e)) r.
+Proof. reflexivity. Qed.
+
+(* silence not yet long enough: k iterations change nothing and emit nothing *)
+Lemma quiet_ticks : forall k p s hb t0,
+  idle_at s hb t0 -> 0 <= hb -> p + (Z.of_nat k - 1) * 1000 - t0 <= (hb - 1) * 1000 ->
+  outs s (ticks p k) = repeat [] k /\ final s (ticks p k) = s.
+Proof.
+  induction k as [|k IH]; intros p s hb t0 I Hhb Hle; [split; reflexivity|].
+  cbn [ticks repeat]. rewrite outs_cons, final_cons. cbn [step].
+  rewrite (tick_idle p s hb t0 I Hhb) by lia. cbn [fst snd].
+  destruct (IH (p + tick_ms) s hb t0 I Hhb) as [A B]; [rewrite tick_ms_eq; lia|].
+  rewrite A, B. split; reflexivity.
+Qed.
+
+Lemma live_set_mlt : forall s m, live s -> live (set_mlt s m).
+Proof. intros s m [A B]; split; assumption. Qed.
+
+(* a probe is outstanding: until its deadline nothing is emitted (no second probe, no disconnect) *)
+Lemma waiting_ticks : forall k p s n,
+  live s -> s_id s = Some n -> n <> 0 -> 0 <= s_hb s ->
+  p + (Z.of_nat k - 1) * 1000 <= (n + 2 * s_hb s) * 1000 ->
+  outs s (ticks p k) = repeat [] k /\ exists m, final s (ticks p k) = set_mlt s m.
+Proof.
+  induction k as [|k IH]; intros p s n L Hi Hn Hhb Hle.
+  - split; [reflexivity|]. exists (s_mlt s). destruct s; reflexivity.
+  - cbn [ticks repeat]. rewrite outs_cons, final_cons. cbn [step].
+    destruct (tick_waiting p s n L Hi Hn Hhb) as [m E]; [lia|]. rewrite E. cbn [fst snd].
+    destruct (IH (p + tick_ms) (set_mlt s m) n) as [A [m' B]];
+      [apply live_set_mlt; assumption | assumption | assumption | assumption
+      | rewrite tick_ms_eq; cbn [set_mlt s_hb]; lia |].
+    rewrite A, B. split; [reflexivity|]. exists m'. reflexivity.
+Qed.
+
+(* ------------------------------------------------------------------ C12_probe, C12_dead_peer *)
+Lemma probe_run : forall hb s t0 p (k : nat),
+  1 <= hb -> idle_at s hb t0 -> 1000 <= p ->
+  let tp := p + Z.of_nat k * 1000 in
+  tp - 1000 - t0 <= (hb - 1) * 1000 < tp - t0 ->
+  outs s (ticks p (k + 1)) = repeat [] k ++ [[testreq_frame (tp / 1000)]]
+  /\ final s (ticks p (k + 1)) = probing_st hb tp
+  /\ t0 + (hb - 1) * 1000 < tp <= t0 + hb * 1000.
+Proof.
+  intros hb s t0 p k Hhb I Hp tp [Hprev Hfire].
+  rewrite ticks_app, outs_app, final_app.
+  destruct (quiet_ticks k p s hb t0 I) as [A B]; [lia | subst tp; lia |].
+  rewrite A, B. cbn [ticks]. rewrite outs_cons, final_cons. cbn [step].
+  fold tp. rewrite (tick_probe tp s hb t0 I Hhb) by (subst tp; lia).
+  cbn [fst snd outs trace map final fold_left]. repeat split; lia.
+Qed.
+
+Lemma probing_live : forall hb t, live (probing_st hb t).
+Proof. split; reflexivity. Qed.
+
+Lemma dead_peer_run : forall hb s t0 p (k m : nat),
+  1 <= hb -> idle_at s hb t0 -> 1000 <= p ->
+  let tp := p + Z.of_nat k * 1000 in
+  let n := tp / 1000 in
+  let td := tp + Z.of_nat (S m) * 1000 in
+  tp - 1000 - t0 <= (hb - 1) * 1000 < tp - t0 ->
+  td - 1000 <= (n + 2 * hb) * 1000 < td ->
+  outs s (ticks p (k + 1 + (m + 1))) =
+    repeat [] k ++ [[testreq_frame n]] ++ repeat [] m ++ [[ODisconnect]]
+  /\ final s (ticks p (k + 1 + (m + 1))) = dead_st hb
+  /\ t0 + (3 * hb - 1) * 1000 < td <= t0 + (3 * hb + 1) * 1000.
+Proof.
+  intros hb s t0 p k m Hhb I Hp tp n td Hk Hm.
+  destruct (probe_run hb s t0 p k Hhb I Hp Hk) as (A & B & C). fold tp in A, B, C. fold n in A.
+  rewrite (ticks_app (k + 1)), outs_app, final_app, A, B.
+  replace (p + Z.of_nat (k + 1) * 1000) with (tp + 1000) by (subst tp; lia).
+  rewrite (ticks_app m), outs_app, final_app.
+  assert (Hn : n <> 0) by (subst n; pose proof (div1000_pos tp); subst tp; lia).
+  destruct (waiting_ticks m (tp + 1000) (probing_st hb tp) n (probing_live hb tp)) as [W [mm F]];
+    [reflexivity | assumption | cbn; lia | cbn [probing_st s_hb]; subst td; lia |].
+  rewrite W, F. cbn [ticks]. rewrite outs_cons, final_cons. cbn [step].
+  rewrite (tick_timeout _ _ n);
+    [| apply live_set_mlt, probing_live | reflexivity | assumption | cbn; lia
+     | cbn [set_mlt probing_st s_hb]; subst td; lia ].
+  cbn [fst snd outs trace map final fold_left set_mlt probing_st s_hb].
+  rewrite <- !app_assoc. cbn [app].
+  pose proof (div1000 tp). fold n in H.
+  repeat split; subst td; lia.
+Qed.
+
+(* ------------------------------------------------------------------ facts about one step *)
+Definition is_testreq (o : out) : bool :=
+  match o with OWire KTestRequest _ => true | _ => false end.
+Definition writes_testreq (r : row) : bool := existsb is_testreq (r_out r).
+Definition is_tick (e : ev) : bool := match e with Tick _ => true | _ => false end.
+Definition is_raw (e : ev) : bool := match e with AppRaw _ _ => true | _ => false end.
+
+Ltac step_crush :=
+  unfold step, tick, recv, app_probe, app_raw, disconnect, set_mlt, set_id, truthy, testreq_frame in *;
+  cbn [s_state s_hb s_mlt s_id s_conn fst snd negb andb orb app existsb is_testreq] in *;
+  repeat (match goal with
+          | |- context [if ?c then _ else _] => destruct c eqn:?
+          | |- context [match ?x with _ => _ end] => destruct x eqn:?
+          end;
+          cbn [s_state s_hb s_mlt s_id s_conn fst snd negb andb orb app existsb is_testreq] in *).
+
+(* while a probe is outstanding no further TestRequest is written by the watchdog or send_test_req;
+   the id survives unless a Heartbeat echoing it arrives or the connection is dropped *)
+Lemma pending_step : forall s e n s' o,
+  s_id s = Some n -> n <> 0 -> is_raw e = false -> step s e = (s', o) ->
+  existsb is_testreq o = false /\
+  (s_id s' = Some n \/ s_conn s' = false \/
+   exists ta v, e = Recv ta (MHeartbeat (Some v)) /\ parse_id v = n).
+Proof.
+  intros [stt hb mlt id conn] e n s' o Hi Hn Hr E. cbn in Hi. subst id.
+  apply Z.eqb_neq in Hn.
+  destruct e as [t | t m | t | t rid]; [| destruct m as [rid | rid |] | | discriminate Hr];
+    revert E; step_crush; intro E; inversion E; subst; cbn; try rewrite Hn in *; try discriminate;
+    split; try reflexivity; auto.
+  all: try (right; right; bool_lia; eauto).
 Qed.
